@@ -1624,6 +1624,23 @@ func (s *BgpServer) stopNeighbor(peer *peer, oldState bgp.FSMState, e *fsmMsg) {
 	s.broadcastPeerState(peer, bgp.BGP_FSM_IDLE, oldState, e)
 }
 
+// localClusterIDs returns the CLUSTER_IDs this speaker reflects routes with:
+// the cluster-id of every neighbor configured as route reflector client.
+// The caller holds s.shared.mu.
+func (s *BgpServer) localClusterIDs() []netip.Addr {
+	ids := make([]netip.Addr, 0, 1)
+	for _, p := range s.neighborMap {
+		conf := p.fsm.pConf.ReadOnly()
+		if !conf.RouteReflector.Config.RouteReflectorClient {
+			continue
+		}
+		if id := conf.RouteReflector.State.RouteReflectorClusterId; id.IsValid() && !slices.Contains(ids, id) {
+			ids = append(ids, id)
+		}
+	}
+	return ids
+}
+
 func (s *BgpServer) handleFSMMessage(peer *peer, e *fsmMsg) {
 	needStopNeighbor := false
 	var oldState bgp.FSMState
@@ -1962,7 +1979,7 @@ func (s *BgpServer) handleFSMMessage(peer *peer, e *fsmMsg) {
 		case bgp.BGP_MSG_ROUTE_REFRESH:
 			s.handleRouteRefresh(peer, e)
 		case bgp.BGP_MSG_UPDATE:
-			pathList, eor, isLimit := peer.handleUpdate(e)
+			pathList, eor, isLimit := peer.handleUpdate(e, s.localClusterIDs)
 			if isLimit {
 				_ = s.setAdminState(peer.ID(), "", adminStatePfxCt)
 				return
